@@ -417,29 +417,59 @@ Qed.
 
 (* ------------------------------------------------------------------ "nothing was observed": the relation between
    the states before and after any operation other than a layer call *)
-Definition same_core (m m' : monitor) : Prop :=
+Definition same_core0 (m m' : monitor) : Prop :=
   m_layer m' = m_layer m /\ m_attr m' = m_attr m /\ m_tags m' = m_tags m /\ m_prepend m' = m_prepend m /\
   m_reads m' = m_reads m /\ m_obs m' = m_obs m.
-Definition quiet (s s' : state) : Prop :=
+Definition same_core (m m' : monitor) : Prop := same_core0 m m' /\ m_alive m' = m_alive m.
+(* quiet0: what also holds across garbage collection; quiet: nothing died either *)
+Definition quietP (P : monitor -> monitor -> Prop) (al : bool) (s s' : state) : Prop :=
   length (mons s) <= length (mons s') /\
-  (forall j, j < length (mons s) -> same_core (get_mon s j) (get_mon s' j)) /\
-  (forall j, length (mons s) <= j -> j < length (mons s') -> m_obs (get_mon s' j) = []) /\
+  (forall j, j < length (mons s) -> P (get_mon s j) (get_mon s' j)) /\
+  (forall j, length (mons s) <= j -> j < length (mons s') ->
+             m_obs (get_mon s' j) = [] /\ (al = true -> m_alive (get_mon s' j) = true)) /\
   length (layers s') = length (layers s) /\
   (forall l, l_steps (get_layer s' l) = l_steps (get_layer s l)).
+Definition quiet := quietP same_core true.
+Definition quiet0 := quietP same_core0 false.
 
+Lemma same_core0_refl m : same_core0 m m.
+Proof. unfold same_core0; tauto. Qed.
+Lemma same_core0_trans a b c : same_core0 a b -> same_core0 b c -> same_core0 a c.
+Proof. unfold same_core0; intros (A1&A2&A3&A4&A5&A6) (B1&B2&B3&B4&B5&B6). repeat split; congruence. Qed.
 Lemma same_core_refl m : same_core m m.
-Proof. unfold same_core; tauto. Qed.
+Proof. split; [apply same_core0_refl|reflexivity]. Qed.
 Lemma same_core_trans a b c : same_core a b -> same_core b c -> same_core a c.
-Proof. unfold same_core; intros (A1&A2&A3&A4&A5&A6) (B1&B2&B3&B4&B5&B6). repeat split; congruence. Qed.
+Proof. intros [A1 A2] [B1 B2]. split; [eapply same_core0_trans; eauto|congruence]. Qed.
+
+Lemma quiet_quiet0 s s' : quiet s s' -> quiet0 s s'.
+Proof.
+  intros (A1 & A2 & A3 & A4 & A5). split; [auto|]. split; [|split; [|split]]; auto.
+  - intros j Hj. apply A2; auto.
+  - intros j H1 H2. destruct (A3 j H1 H2) as [K _]. split; [exact K|discriminate].
+Qed.
 
 Lemma quiet_refl s : quiet s s.
-Proof. unfold quiet; repeat split; auto; try lia; intros; apply same_core_refl. Qed.
+Proof.
+  unfold quiet, quietP. split; [lia|]. split; [intros; apply same_core_refl|]. split; [intros; lia|]. split; auto.
+Qed.
+Lemma quiet0_refl s : quiet0 s s.
+Proof. apply quiet_quiet0, quiet_refl. Qed.
 
 Lemma quiet_trans a b c : quiet a b -> quiet b c -> quiet a c.
 Proof.
   intros (A1 & A2 & A3 & A4 & A5) (B1 & B2 & B3 & B4 & B5). split; [lia|]. split; [|split; [|split]].
   - intros j Hj. eapply same_core_trans; [apply A2; auto|apply B2; lia].
   - intros j H1 H2. destruct (Nat.lt_ge_cases j (length (mons b))) as [K|K].
+    + destruct (B2 j K) as ((_ & _ & _ & _ & _ & E) & E2). rewrite E, E2. apply A3; auto.
+    + apply B3; auto.
+  - congruence.
+  - intros l. rewrite B5. apply A5.
+Qed.
+Lemma quiet0_trans a b c : quiet0 a b -> quiet0 b c -> quiet0 a c.
+Proof.
+  intros (A1 & A2 & A3 & A4 & A5) (B1 & B2 & B3 & B4 & B5). split; [lia|]. split; [|split; [|split]].
+  - intros j Hj. eapply same_core0_trans; [apply A2; auto|apply B2; lia].
+  - intros j H1 H2. split; [|discriminate]. destruct (Nat.lt_ge_cases j (length (mons b))) as [K|K].
     + destruct (B2 j K) as (_ & _ & _ & _ & _ & E). rewrite E. apply A3; auto.
     + apply B3; auto.
   - congruence.
@@ -449,19 +479,20 @@ Qed.
 (* only trainers / cmon / accs changed *)
 Lemma quiet_ext s s' : layers s' = layers s -> mons s' = mons s -> quiet s s'.
 Proof.
-  intros El Em. unfold quiet, get_mon, get_layer. rewrite El, Em. repeat split; auto; try lia.
+  intros El Em. unfold quiet, quietP, get_mon, get_layer. rewrite El, Em.
+  split; [lia|]. split; [intros; apply same_core_refl|]. split; [intros; lia|]. split; auto.
 Qed.
 
 Lemma quiet_upd_mon i f s : (forall m, same_core m (f m)) -> quiet s (upd_mon i f s).
 Proof.
-  intros Hf. unfold quiet. rewrite length_mons_upd_mon. split; [lia|]. split; [|split; [|split]]; auto; try lia.
+  intros Hf. unfold quiet, quietP. rewrite length_mons_upd_mon. split; [lia|]. split; [|split; [|split]]; auto; try lia.
   intros j Hj. destruct (Nat.eq_dec i j) as [->|N]; [rewrite get_mon_upd_same by auto; apply Hf|
                                                      rewrite get_mon_upd_other by auto; apply same_core_refl].
 Qed.
 
 Lemma quiet_upd_hooks lm f s : (forall l, l_steps (f l) = l_steps l) -> quiet s (upd_layer lm f s).
 Proof.
-  intros Hf. unfold quiet. split; [simpl; lia|]. split; [|split; [|split]].
+  intros Hf. unfold quiet, quietP. split; [simpl; lia|]. split; [|split; [|split]].
   - intros j Hj. apply same_core_refl.
   - intros j H1 H2. simpl in H2. lia.
   - apply length_layers_upd_layer.
@@ -474,7 +505,7 @@ Proof.
   unfold deregister. destruct (m_reg (get_mon s i)); [|apply quiet_refl].
   eapply quiet_trans;
     [apply quiet_upd_hooks with (f := fun l => set_hooks (remove_nat i (l_hooks l)) l); reflexivity|].
-  apply quiet_upd_mon. intros m; destruct m; unfold same_core; simpl; tauto.
+  apply quiet_upd_mon. intros m; destruct m; unfold same_core, same_core0; simpl; tauto.
 Qed.
 
 Lemma quiet_do_register i s : quiet s (do_register i s).
@@ -483,25 +514,30 @@ Proof.
   eapply quiet_trans;
     [apply quiet_upd_hooks with
        (f := fun l => set_hooks (if m_prepend (get_mon s i) then i :: l_hooks l else l_hooks l ++ [i]) l); reflexivity|].
-  apply quiet_upd_mon. intros m; destruct m; unfold same_core; simpl; tauto.
+  apply quiet_upd_mon. intros m; destruct m; unfold same_core, same_core0; simpl; tauto.
 Qed.
 
 Lemma quiet_reregister i s : quiet s (reregister i s).
 Proof. unfold reregister. destruct (m_reg (get_mon s i)); [apply quiet_refl|apply quiet_do_register]. Qed.
 
 Lemma quiet_set_fresh i b s : quiet s (upd_mon i (set_fresh b) s).
-Proof. apply quiet_upd_mon. intros m; destruct m; unfold same_core; simpl; tauto. Qed.
+Proof. apply quiet_upd_mon. intros m; destruct m; unfold same_core, same_core0; simpl; tauto. Qed.
 
-Lemma quiet_set_dead i s : quiet s (upd_mon i set_dead s).
-Proof. apply quiet_upd_mon. intros m; destruct m; unfold same_core; simpl; tauto. Qed.
+Lemma quiet0_set_dead i s : quiet0 s (upd_mon i set_dead s).
+Proof.
+  unfold quiet0, quietP. rewrite length_mons_upd_mon. split; [lia|]. split; [|split; [|split]]; auto; try lia.
+  intros j Hj. destruct (Nat.eq_dec i j) as [->|N]; [rewrite get_mon_upd_same by auto|
+                                                     rewrite get_mon_upd_other by auto; apply same_core0_refl].
+  destruct (get_mon s j); unfold same_core0; simpl; tauto.
+Qed.
 
 Lemma quiet_new_monitor lay attr tg pre reads s s' i :
   new_monitor lay attr tg pre reads s = (s', i) -> quiet s s'.
 Proof.
   intros E. destruct (new_monitor_spec _ _ _ _ _ _ _ _ E) as (Ei & L & _ & _ & _ & LL & Old & New & Ls & _).
-  unfold quiet. split; [lia|]. split; [|split; [|split]]; auto.
+  unfold quiet, quietP. split; [lia|]. split; [|split; [|split]]; auto.
   - intros j Hj. rewrite Old by auto. apply same_core_refl.
-  - intros j H1 H2. assert (j = i) by lia. subst j. rewrite New. reflexivity.
+  - intros j H1 H2. assert (j = i) by lia. subst j. rewrite New. split; reflexivity.
   - intros l. apply Ls.
 Qed.
 
@@ -802,30 +838,30 @@ Lemma deregister_others i s :
 Proof. unfold deregister. destruct (m_reg (get_mon s i)); auto. Qed.
 
 (* garbage collection *)
-Lemma kill_Inv1 k s : Inv1 s -> Inv1 (upd_mon k set_dead (deregister k s)) /\ quiet s (upd_mon k set_dead (deregister k s)).
+Lemma kill_Inv1 k s : Inv1 s -> Inv1 (upd_mon k set_dead (deregister k s)) /\ quiet0 s (upd_mon k set_dead (deregister k s)).
 Proof.
   intros I. pose proof (Inv1_deregister k s I) as [H P]. split; [split|].
   - apply HW_upd_mon; [| |exact H].
     + cbv zeta. rewrite deregister_mon, Nat.eqb_refl. destruct (get_mon s k); simpl; auto.
     + intros o Ho. left. destruct (get_mon (deregister k s) k); auto.
   - intros t j Hj. rewrite length_mons_upd_mon. apply (P t). exact Hj.
-  - eapply quiet_trans; [apply quiet_deregister|apply quiet_set_dead].
+  - eapply quiet0_trans; [apply quiet_quiet0, quiet_deregister|apply quiet0_set_dead].
 Qed.
 
-Lemma collect_from_Inv1 n : forall k s, Inv1 s -> Inv1 (collect_from k n s) /\ quiet s (collect_from k n s).
+Lemma collect_from_Inv1 n : forall k s, Inv1 s -> Inv1 (collect_from k n s) /\ quiet0 s (collect_from k n s).
 Proof.
-  induction n as [|n IH]; simpl; intros k s I; [split; auto; apply quiet_refl|].
+  induction n as [|n IH]; simpl; intros k s I; [split; auto; apply quiet0_refl|].
   set (s1 := if m_alive (get_mon s k) && negb (referenced s k) then upd_mon k set_dead (deregister k s) else s).
-  assert (I1 : Inv1 s1 /\ quiet s s1).
-  { unfold s1. destruct (m_alive (get_mon s k) && negb (referenced s k)); [apply kill_Inv1; auto|split; auto; apply quiet_refl]. }
-  destruct I1 as [I1 Q1]. destruct (IH (S k) s1 I1) as [I2 Q2]. split; auto. eapply quiet_trans; eauto.
+  assert (I1 : Inv1 s1 /\ quiet0 s s1).
+  { unfold s1. destruct (m_alive (get_mon s k) && negb (referenced s k)); [apply kill_Inv1; auto|split; auto; apply quiet0_refl]. }
+  destruct I1 as [I1 Q1]. destruct (IH (S k) s1 I1) as [I2 Q2]. split; auto. eapply quiet0_trans; eauto.
 Qed.
 
-Lemma collect_Inv1 s : Inv1 s -> Inv1 (collect s) /\ quiet s (collect s).
+Lemma collect_Inv1 s : Inv1 s -> Inv1 (collect s) /\ quiet0 s (collect s).
 Proof.
   intros I. unfold collect, prune_cmon. destruct (collect_from_Inv1 (length (mons s)) 0 s I) as [I1 Q1]. split.
   - apply Inv1_cmon; auto.
-  - eapply quiet_trans; [exact Q1|apply quiet_ext; reflexivity].
+  - eapply quiet0_trans; [exact Q1|apply quiet_quiet0, quiet_ext; reflexivity].
 Qed.
 
 (* ------------------------------------------------------------------ Part 2: one layer call *)
@@ -1007,3 +1043,127 @@ Qed.
 (* the hook lists are well formed after ANY operation sequence, from the initial state *)
 Theorem hooks_wf_always w tys ops : HW (run w (init_state w tys) ops).
 Proof. apply run_Inv1. apply Inv1_init. Qed.
+
+(* ------------------------------------------------------------------ the effect of one layer call *)
+Definition records (s : state) (l i : nat) : bool :=
+  m_reg (get_mon s i) && Nat.eqb (m_layer (get_mon s i)) l && l_training (get_layer s l).
+
+Lemma layer_step_frame s l s' r :
+  HW s -> l < length (layers s) -> layer_step s l = (s', r) ->
+  trainers s' = trainers s /\ cmon s' = cmon s /\ accs s' = accs s /\ length (mons s') = length (mons s) /\
+  length (layers s') = length (layers s) /\
+  (forall k, l_training (get_layer s' k) = l_training (get_layer s k) /\ l_hooks (get_layer s' k) = l_hooks (get_layer s k) /\
+             l_steps (get_layer s' k) = if Nat.eqb l k then S (l_steps (get_layer s l)) else l_steps (get_layer s k)).
+Proof.
+  unfold layer_step. intros (A & _) Hl E. destruct (A l Hl) as [ND _].
+  destruct (run_hooks_spec _ _ _ _ _ _ ND E) as (La & Tr & Cm & Ac & L & _).
+  repeat split; auto.
+  - rewrite La. apply length_layers_upd_layer.
+  - unfold get_layer at 1. rewrite La. fold (get_layer (upd_layer l (fun L0 => mkLayer (l_training L0) (l_hooks L0) (S (l_steps (get_layer s l)))) s) k).
+    destruct (Nat.eq_dec l k) as [<-|N]; [rewrite get_layer_upd_same by auto; auto|rewrite get_layer_upd_other by auto; auto].
+  - unfold get_layer at 1. rewrite La. fold (get_layer (upd_layer l (fun L0 => mkLayer (l_training L0) (l_hooks L0) (S (l_steps (get_layer s l)))) s) k).
+    destruct (Nat.eq_dec l k) as [<-|N]; [rewrite get_layer_upd_same by auto; auto|rewrite get_layer_upd_other by auto; auto].
+  - unfold get_layer at 1. rewrite La. fold (get_layer (upd_layer l (fun L0 => mkLayer (l_training L0) (l_hooks L0) (S (l_steps (get_layer s l)))) s) k).
+    destruct (Nat.eqb l k) eqn:E2.
+    + apply Nat.eqb_eq in E2; subst k. rewrite get_layer_upd_same by auto. reflexivity.
+    + apply Nat.eqb_neq in E2. rewrite get_layer_upd_other by auto. reflexivity.
+Qed.
+
+(* Whatever happens (also when a hook raises): a monitor is either untouched or - only if it is registered on
+   this layer and the layer trains - has received exactly ONE new observation, stamped with the new step. *)
+Theorem layer_step_at_most_once s l s' r :
+  HW s -> l < length (layers s) -> layer_step s l = (s', r) ->
+  forall i, get_mon s' i = get_mon s i \/
+            (records s l i = true /\ exists rd, get_mon s' i = add_obs (S (l_steps (get_layer s l)), rd) (get_mon s i)).
+Proof.
+  intros H Hl E i. pose proof H as (A & _). destruct (A l Hl) as [ND IFF]. unfold layer_step in E.
+  destruct (run_hooks_spec _ _ _ _ _ _ ND E) as (_ & _ & _ & _ & _ & F & _).
+  destruct (F i) as [Fi|(Hin & Ht & _ & rd & Fi)]; [left; exact Fi|right].
+  split; [|exists rd; exact Fi].
+  apply IFF in Hin as (_ & B & C). unfold records. rewrite B, C, Nat.eqb_refl, Ht. reflexivity.
+Qed.
+
+(* When no hook raises: exactly the registered monitors of a training layer record, once each. *)
+Theorem layer_step_exactly_once s l s' :
+  HW s -> l < length (layers s) -> layer_step s l = (s', None) ->
+  forall i, i < length (mons s) ->
+    if records s l i then exists rd, get_mon s' i = add_obs (S (l_steps (get_layer s l)), rd) (get_mon s i)
+    else get_mon s' i = get_mon s i.
+Proof.
+  intros H Hl E i Hi. pose proof H as (A & _). destruct (A l Hl) as [ND IFF].
+  pose proof (layer_step_at_most_once _ _ _ _ H Hl E i) as AM. unfold layer_step in E.
+  destruct (run_hooks_spec _ _ _ _ _ _ ND E) as (_ & _ & _ & _ & _ & _ & G).
+  destruct (records s l i) eqn:R.
+  - unfold records in R. apply andb_true_iff in R as [R R3]. apply andb_true_iff in R as [R1 R2].
+    apply Nat.eqb_eq in R2. apply (G eq_refl R3 i); auto. apply IFF. auto.
+  - destruct AM as [AM|[AM _]]; [exact AM|congruence].
+Qed.
+
+(* ------------------------------------------------------------------ hook order: a monitor registered with
+   prepend=False that reads other monitors by name reads SAME-STEP data of every registered prepend=True monitor
+   of its layer (this is what MSTDPET's eligibility monitors rely on, at first registration and after every
+   eval()/train() re-registration) *)
+Lemma run_hooks_app a : forall b s tr stamp,
+  run_hooks s tr stamp (a ++ b) =
+  match run_hooks s tr stamp a with
+  | (s1, None) => run_hooks s1 tr stamp b
+  | (s1, Some e) => (s1, Some e)
+  end.
+Proof.
+  induction a as [|i tl IH]; simpl; intros b s tr stamp; auto.
+  destruct tr; [|apply IH]. destruct (monitor_call s i stamp) as [s1 [e|]]; auto.
+Qed.
+
+Lemma do_reads_spec s d names : forall rd af,
+  do_reads s d names = Some (rd, af) ->
+  Forall2 (fun n r => alookup n d = Some (fst r) /\ snd r = last_stamp (get_mon s (fst r))) names rd.
+Proof.
+  induction names as [|n tl IH]; simpl; intros rd af E.
+  - inversion E; subst. constructor.
+  - destruct (alookup n d) as [i|] eqn:En; [|discriminate].
+    destruct (do_reads s d tl) as [[r a]|]; [|discriminate]. inversion E; subst. constructor; auto.
+    eapply IH; reflexivity.
+Qed.
+
+Theorem reads_current s l s' i cell names strict :
+  HW s -> l < length (layers s) -> layer_step s l = (s', None) -> l_training (get_layer s l) = true ->
+  i < length (mons s) -> m_reg (get_mon s i) = true -> m_layer (get_mon s i) = l ->
+  m_prepend (get_mon s i) = false -> m_reads (get_mon s i) = Some (cell, names, strict) ->
+  exists rd, get_mon s' i = add_obs (S (l_steps (get_layer s l)), rd) (get_mon s i) /\
+    Forall2 (fun n r =>
+               alookup n (cmon_get cell (cmon s)) = Some (fst r) /\
+               (fst r < length (mons s) -> m_reg (get_mon s (fst r)) = true -> m_layer (get_mon s (fst r)) = l ->
+                m_prepend (get_mon s (fst r)) = true -> snd r = Some (S (l_steps (get_layer s l))))) names rd.
+Proof.
+  intros H Hl E Ht Hi Hr Hlay Hp Hrd. pose proof H as (A & B & _). destruct (A l Hl) as [ND IFF].
+  assert (Hin : In i (l_hooks (get_layer s l))) by (apply IFF; auto).
+  apply in_split in Hin as (pre & post & Eh).
+  unfold layer_step in E. set (stamp := S (l_steps (get_layer s l))) in *.
+  set (s0 := upd_layer l (fun L => mkLayer (l_training L) (l_hooks L) stamp) s) in *.
+  rewrite Eh, Ht in E. rewrite run_hooks_app in E.
+  rewrite Eh in ND. pose proof (NoDup_remove_2 _ _ _ ND) as Ni. pose proof (NoDup_remove_1 _ _ _ ND) as ND2.
+  assert (NDpre : NoDup pre) by (eapply NoDup_app_l; eauto).
+  assert (NDpost : NoDup post) by (eapply NoDup_app_r; eauto).
+  destruct (run_hooks s0 true stamp pre) as [s1 [e|]] eqn:E1; [inversion E|].
+  destruct (run_hooks_spec _ _ _ _ _ _ NDpre E1) as (_ & _ & Cm1 & _ & L1 & F1 & G1).
+  simpl in E. destruct (monitor_call s1 i stamp) as [s2 [e|]] eqn:Em; [inversion E|].
+  assert (Gi : get_mon s1 i = get_mon s i).
+  { destruct (F1 i) as [K|(K & _)]; [exact K|]. exfalso. apply Ni. apply in_or_app. auto. }
+  unfold monitor_call in Em. rewrite Gi, Hrd in Em.
+  destruct (do_reads s1 (cmon_get cell (cmon s1)) names) as [[rd af]|] eqn:Ed; [|inversion Em].
+  destruct (strict && af); inversion Em; subst s2; clear Em.
+  destruct (run_hooks_spec _ _ _ _ _ _ NDpost E) as (_ & _ & _ & _ & _ & F2 & _).
+  exists rd. split.
+  - destruct (F2 i) as [K|(K & _)]; [|exfalso; apply Ni; apply in_or_app; auto].
+    rewrite K. rewrite get_mon_upd_same by (rewrite L1; exact Hi). rewrite Gi. reflexivity.
+  - apply do_reads_spec in Ed. rewrite Cm1 in Ed. change (cmon s0) with (cmon s) in Ed.
+    eapply Forall2_mono; [|exact Ed]. intros n r [R1 R2]. split; auto.
+    intros Hj Hjr Hjl Hjp. rewrite R2.
+    assert (Hjin : In (fst r) (l_hooks (get_layer s l))) by (apply IFF; auto).
+    rewrite Eh in Hjin. apply in_app_or in Hjin as [Hjin|[Hjin|Hjin]].
+    + destruct (G1 eq_refl eq_refl (fst r) Hjin) as [rd' K]; [exact Hj|]. rewrite K.
+      unfold last_stamp. destruct (add_obs_core (stamp, rd') (get_mon s0 (fst r))) as (_ & _ & _ & _ & O & _). rewrite O. reflexivity.
+    + subst i. congruence.
+    + exfalso. specialize (B l Hl). rewrite Eh in B.
+      pose proof (pp_sorted_split _ _ _ _ B Hp (fst r) Hjin) as K. simpl in K. congruence.
+Qed.
